@@ -51,7 +51,9 @@ def gapHasNl (g : Gap) : Bool := g.any GapPiece.isNl
 /-- identifier as the lexer defines it: non-empty, `[A-Za-z0-9.+~-]` -/
 def isIdent (s : Str) : Bool := !s.isEmpty && s.all isIdentChar
 
-/-- version text: `[epoch:]body` -/
+/-- version text: `[epoch:]body`. With an epoch the body may itself contain ':' (Policy 5.6.12:
+    "if there is no epoch then colons are not allowed" in upstream_version): `1:2:3` is epoch `1`,
+    body `2:3` -/
 structure VersionA where
   epoch : Option Str
   body : Str
@@ -158,8 +160,20 @@ def opToks : VC → List Tok
   | .GreaterThan => [(.R_ANGLE, ['>']), (.R_ANGLE, ['>'])]
   | .LessThan => [(.L_ANGLE, ['<']), (.L_ANGLE, ['<'])]
 
-def VersionA.toks (v : VersionA) : List Tok :=
-  (match v.epoch with | some e => [(.IDENT, e), (.COLON, [':'])] | none => []) ++ [(.IDENT, v.body)]
+/-- the version text is identifiers separated by ':' — the first of them: the epoch, or the whole
+    body when there is no epoch -/
+def VersionA.first (v : VersionA) : Str :=
+  match v.epoch with | some e => e | none => v.body
+/-- … and the others: with an epoch, the pieces of the body between its colons -/
+def VersionA.more (v : VersionA) : List Str :=
+  match v.epoch with | some _ => Text.splitOn ':' v.body | none => []
+
+/-- `COLON IDENT` for every further piece -/
+def colonTail (ps : List Str) : List Tok :=
+  (ps.map fun q => [(Kind.COLON, [':']), (Kind.IDENT, q)]).flatten
+
+/-- `IDENT (COLON IDENT)*`: the lexer cuts the text at every ':' -/
+def VersionA.toks (v : VersionA) : List Tok := (.IDENT, v.first) :: colonTail v.more
 
 /-- tokens between `(` and `)` -/
 def VerPart.inner (p : VerPart) : List Tok :=
@@ -278,10 +292,12 @@ def FieldA.tree (f : FieldA) : RNode := .node .ROOT (segsNodes f.segs)
 
 /-! ### what the readers must expose -/
 
-/-- upstream version and Debian revision: split at the last hyphen (when both sides are non-empty) -/
+/-- upstream version and Debian revision: split at the last hyphen, when both sides are non-empty
+    and the right side can be a revision (`[A-Za-z0-9+.~]+`: identifier characters always are, a ':'
+    of a body with an epoch is not — then the whole body is the upstream version) -/
 def splitRev (body : Str) : Str × Option Str :=
   match splitLastDash body with
-  | some (b, a) => if !b.isEmpty && !a.isEmpty then (b, some a) else (body, none)
+  | some (b, a) => if !b.isEmpty && !a.isEmpty && a.all isRevChar then (b, some a) else (body, none)
   | none => (body, none)
 
 /-- the `debversion::Version` that was written -/
@@ -316,8 +332,11 @@ def FieldA.substvars (f : FieldA) : List Str := f.segs.filterMap fun s => s.entr
 
 def isDigits (s : Str) : Bool := !s.isEmpty && s.all isAsciiDigit
 
+/-- every piece between the colons is an identifier (so: no ':' in the body without an epoch; with an
+    epoch no empty piece — not `1:`, `1::2`, `1:2:`); the epoch is a number below 2^32 -/
 def VersionA.ok (v : VersionA) : Bool :=
-  isIdent v.body && (match v.epoch with | some e => isDigits e && digitsVal e < 4294967296 | none => true)
+  isIdent v.first && v.more.all isIdent
+    && (match v.epoch with | some e => isDigits e && digitsVal e < 4294967296 | none => true)
 
 def VerPart.ok (p : VerPart) : Bool :=
   gapOk p.pre && gapOk p.g2 && gapOk p.g3 && gapOk p.g4 && p.ver.ok
